@@ -8,7 +8,7 @@ from __future__ import annotations
 
 from ..model import AnalysisError, ClassInfo, Program
 from ..report import Run
-from ..skel import recv_path, render, term_classes
+from ..skel import recv_path, render, root_attr, term_classes
 from ..symex import (Alt, Const, CtxV, EnumV, Hole, Lit, Obj, Phi, SlotP, Str, Sym, show, walk_parts)
 from .c12 import peel
 
@@ -269,6 +269,7 @@ def check(program: Program, run: Run) -> None:
         "Adjacent-operator fusion into `--` is checked on the same table. Exhaustive over the product; nothing is executed.")
     run.rule("regroup: reference rule says parentheses are needed and the parent neither wraps the slot nor passes an effective subcriterion flag")
     run.rule("fuse: parent operator text ending in '-' directly followed by a child that may start with '-'")
+    run.rule("joined-operator: operands concatenated by str.join / a loop with an operator as separator (AND, OR, +, ...) form an n-ary operator application: each operand is wrapped literally or receives subcriterion=True")
     run.rule("classification: every Term class has a known operator level (atom / prefix / infix / postfix); an unclassified infix/prefix renderer is a violation")
     run.exhaustive = True
     terms = term_classes(program)
@@ -409,3 +410,70 @@ def check(program: Program, run: Run) -> None:
     run.extra["table"] = table
     if cells < 250:
         raise AnalysisError(f"instance count below floor: cells {cells}")
+
+
+    # ---- n-ary operators spelled as a join: `" AND ".join(c.get_sql(ctx) for c in self._filters)` builds the same tree
+    # as a ComplexCriterion chain but bypasses its bracket decision
+    import dataclasses
+    import re as _re
+    from ..skel import skeletons
+    from ..symex import JoinP, Rep
+    OPS = _re.compile(r"^\s*(AND|OR|XOR|\+|-|\*|/|%|\|\||=|<>|<|>)\s*$", _re.I)
+
+    def lit(st):
+        return "".join(x.text for x in st.parts if isinstance(x, Lit)) if isinstance(st, Str) else ""
+
+    def find_slots(y, out, dd=0):
+        if dd > 40 or isinstance(y, (str, int, float, bool, type(None))):
+            return
+        if isinstance(y, SlotP):
+            out.append(y)
+            return
+        if isinstance(y, (tuple, list)):
+            for i in y:
+                find_slots(i, out, dd + 1)
+            return
+        if dataclasses.is_dataclass(y):
+            for fl in dataclasses.fields(y):
+                if fl.name not in ("src", "cond", "ctx", "recv"):
+                    find_slots(getattr(y, fl.name), out, dd + 1)
+    seen_j = set()
+    njoins = 0
+
+    def scan(x, cls, d=0):
+        nonlocal njoins
+        if d > 60 or isinstance(x, (str, int, float, bool, type(None))):
+            return
+        if isinstance(x, (tuple, list)):
+            for i in x:
+                scan(i, cls, d + 1)
+            return
+        if isinstance(x, (Rep, JoinP)):
+            njoins += 1
+            sep = lit(x.sep)
+            if OPS.match(sep or ""):
+                slots = []
+                find_slots(x.body if isinstance(x, Rep) else x.items, slots)
+                for sl in slots:
+                    fn = sl.src[0] if sl.src else cls.qualname
+                    key = (fn, recv_path(sl.recv), sep.strip())
+                    if key in seen_j:
+                        continue
+                    seen_j.add(key)
+                    sub = sl.ctx.fields["subcriterion"] if isinstance(sl.ctx, CtxV) else None
+                    ok = sub == Const(True)
+                    run.ob("C06 operands joined by an operator separator are bracketed", f"{fn}:{key[1]} {key[2]}", ok, detail=f"subcriterion={show(sub)}",
+                           where=f"{sl.src[2]}:{sl.src[1]}" if sl.src else "")
+                    if not ok:
+                        run.finding(f"C06/joined-operator:{fn}:{root_attr(key[1])}:{key[2].upper()}",
+                                    f"{fn} concatenates the renderings of `{key[1]}` with the operator `{key[2]}` as separator and passes subcriterion={show(sub)}: an operand that is an OR/XOR group (or any looser-binding expression) "
+                                    "is written without parentheses and regroups under the separator", where=f"{sl.src[2]}:{sl.src[1]}" if sl.src else "", rule="joined-operator")
+        if dataclasses.is_dataclass(x):
+            for fl in dataclasses.fields(x):
+                if fl.name not in ("src", "cond", "ctx", "recv"):
+                    scan(getattr(x, fl.name), cls, d + 1)
+    for c2, (sk2, _ev) in skeletons(program).items():
+        scan(sk2, c2)
+    run.analysed["joined_renderings_scanned"] = njoins
+    if njoins < 40:
+        raise AnalysisError(f"instance count below floor: joined renderings {njoins}")
